@@ -720,6 +720,13 @@ func (ex *Exec) step(st *State, fr *Frame, in ssa.Instruction, b *ssa.BasicBlock
 		}
 		return nil
 	case *ssa.Send:
+		// channel contents are not modelled; the number of sends this invocation performed is (ghost)
+		ch := ex.val(st, x.Chan)
+		ex.nilCheck(st, ch, x, "send on nil channel")
+		ex.chanCount(st, "chan sent", ex.valTerm(ch))
+		if len(st.held) > 0 {
+			ex.check(st, "lock", ex.site("lock:blocking", x), TFalse, "blocking channel send while holding a lock", ex.pos(x))
+		}
 		return nil
 	}
 	panic(oos(fmt.Sprintf("unsupported instruction %T: %s", in, in)))
@@ -1056,6 +1063,10 @@ func (ex *Exec) doPanic(st *State, fr *Frame, x *ssa.Panic) {
 		top = top.parent
 	}
 	spec := ex.spec
+	if spec.MayPanic {
+		ex.trusted["explicit panics of "+fname+" are allowed by its contract (maypanic)"] = true
+		return
+	}
 	if spec.Panics != nil && spec.Panics.appliesTo(ex.prop) && fr.id == 0 {
 		pc := ex.specCtx(ex.entry, nil, fr)
 		ex.check(st, "panic-iff", fmt.Sprintf("%s/panic-iff:panics#%d", fname, ex.siteOrd[x]), pc.EvalBool(spec.Panics.Expr), "panics although the contract does not allow it: "+spec.Panics.Src, ex.pos(x))
